@@ -66,6 +66,8 @@ class Exec(MonitorMixin, DictMixin, StmtMixin, CallMixin, BuiltinMixin, ExprMixi
         names = [a.arg for a in fn.args.posonlyargs + fn.args.args + fn.args.kwonlyargs]
         if fn.args.vararg is not None:
             names.append(fn.args.vararg.arg)
+        if fn.args.kwarg is not None:
+            names.append(fn.args.kwarg.arg)
         alts: List[Dict[str, str]] = [{}]
         for n in names:
             if n not in c.params:
